@@ -425,6 +425,8 @@ func runC13(c *an.Ctx) {
 	s.ruleM2()
 	s.ruleM3()
 	s.ruleM5()
+	s.ruleM7()
+	s.ruleM8()
 	ruleM6(c)
 }
 
@@ -700,6 +702,8 @@ func (s *c13) ruleM5() {
 					}
 				}
 				return len(x.Edges) > 0
+			case *ssa.Extract:
+				return rec(x.Tuple, d+1)
 			case *ssa.Slice:
 				return rec(x.X, d+1)
 			case *ssa.Alloc:
@@ -773,8 +777,10 @@ func (s *c13) ruleM5() {
 					c.Pass("M5", "symlink-back-at-the-moved-file's-old-path@"+name, in.Pos(), "the link replaces the file that was just moved")
 					return
 				}
-				c.Check("M5", "symlink-destination-from-GetOutFilename@"+name, in.Pos(), fromOutFilename(dst),
-					"a link created for an output is placed at the path built from the member's GetOutFilename()")
+				// either the link is placed under outs/ (its name derives from GetOutFilename), or it is the link
+				// back: it POINTS at the file under outs/ (its target derives from GetOutFilename)
+				c.Check("M5", "symlink-destination-from-GetOutFilename@"+name, in.Pos(), fromOutFilename(dst) || fromOutFilename(cl.Common().Args[0]),
+					"a link created for an output is placed at (or points back at) the path built from the member's GetOutFilename()")
 			}
 		})
 	}
@@ -951,4 +957,317 @@ func ruleM6(c *an.Ctx) {
 		}
 	}
 	c.Floor("M6", "calls of structFromCallable", nCalls, 1)
+}
+
+// variadicElems: the elements of a variadic argument built in place (`f(a, b, c)`).
+func variadicElems(v ssa.Value) []ssa.Value {
+	sl, ok := v.(*ssa.Slice)
+	if !ok {
+		return nil
+	}
+	var out []ssa.Value
+	for _, r := range an.Referrers(sl.X) {
+		if ia, ok := r.(*ssa.IndexAddr); ok {
+			for _, r2 := range an.Referrers(ia) {
+				if st, ok := r2.(*ssa.Store); ok && st.Addr == ssa.Value(ia) {
+					out = append(out, st.Val)
+				}
+			}
+		}
+	}
+	return out
+}
+
+// M7: a relative link target is resolved against the directory of the link it was read from.
+// copyOutSymlink follows a chain of symbolic links by hand (it must not walk up the tree as
+// EvalSymlinks does): each hop reads a link with os.Readlink(P) and, when the target R is relative,
+// continues at Join(Dir(Q), R).  POSIX resolves a relative target against the directory that
+// contains the link, so Q must be P - the very path that was read.  Resolving a later hop against
+// the directory of the FIRST link makes the rewritten _outs (and, for longer chains, the link
+// placed under outs/) point at a file that does not exist.
+// Decided by comparing the leaf sets (through phis) of P and Q, also through a helper
+// `resolve(linkPath, target)` whose parameters are mapped to the arguments of each call.
+func (s *c13) ruleM7() {
+	c := s.c
+	leaves := func(v ssa.Value) map[string]bool {
+		out := map[string]bool{}
+		seen := map[ssa.Value]bool{}
+		var rec func(v ssa.Value)
+		rec = func(v ssa.Value) {
+			if v == nil || seen[v] {
+				return
+			}
+			seen[v] = true
+			if ph, ok := v.(*ssa.Phi); ok {
+				for _, e := range ph.Edges {
+					rec(e)
+				}
+				return
+			}
+			out[an.Path(v)] = true
+		}
+		rec(v)
+		return out
+	}
+	sameSet := func(a, b map[string]bool) bool {
+		if len(a) != len(b) {
+			return false
+		}
+		for k := range a {
+			if !b[k] {
+				return false
+			}
+		}
+		return true
+	}
+	// readlinkSources: the paths P such that v (through phis) is the target returned by os.Readlink(P)
+	readlinkSources := func(v ssa.Value) (map[string]bool, bool) {
+		out := map[string]bool{}
+		seen := map[ssa.Value]bool{}
+		all := true
+		any := false
+		var rec func(v ssa.Value)
+		rec = func(v ssa.Value) {
+			if v == nil || seen[v] {
+				return
+			}
+			seen[v] = true
+			switch x := v.(type) {
+			case *ssa.Phi:
+				for _, e := range x.Edges {
+					rec(e)
+				}
+			case *ssa.Extract:
+				if cl, ok := x.Tuple.(*ssa.Call); ok && x.Index == 0 {
+					if f := cl.Call.StaticCallee(); f != nil && f.Pkg != nil && f.Pkg.Pkg.Path() == "os" && f.Name() == "Readlink" {
+						any = true
+						for k := range leaves(cl.Call.Args[0]) {
+							out[k] = true
+						}
+						return
+					}
+				}
+				all = false
+			default:
+				all = false
+			}
+		}
+		rec(v)
+		return out, any && all
+	}
+	n := 0
+	check := func(host *ssa.Function, pos token.Pos, q, r ssa.Value, via string) {
+		src, isTarget := readlinkSources(r)
+		if !isTarget {
+			return
+		}
+		n++
+		ok := sameSet(leaves(q), src)
+		c.Check("M7", "relative-link-target-resolved-against-its-own-link"+via+"@"+an.FnName(host), pos, ok,
+			fmt.Sprintf("the target returned by os.Readlink(%s) is joined with the directory of %s: a relative target of a later link in a chain is resolved against the wrong directory, so the recorded output path (and the link under outs/) can point at a file that does not exist", keysOf(src), keysOf(leaves(q))))
+	}
+	for _, fn := range s.fam {
+		an.Instrs(fn, func(in ssa.Instruction) {
+			cl, ok := in.(*ssa.Call)
+			if !ok || cl.Call.StaticCallee() == nil {
+				return
+			}
+			f := cl.Call.StaticCallee()
+			if f.Pkg != nil && (f.Pkg.Pkg.Path() == "path/filepath" || f.Pkg.Pkg.Path() == "path") && f.Name() == "Join" && len(cl.Call.Args) == 1 {
+				elems := variadicElems(cl.Call.Args[0])
+				var dirOf ssa.Value
+				for _, e := range elems {
+					if dc, ok := e.(*ssa.Call); ok && dc.Call.StaticCallee() != nil && dc.Call.StaticCallee().Name() == "Dir" && len(dc.Call.Args) == 1 {
+						dirOf = dc.Call.Args[0]
+					}
+				}
+				if dirOf == nil {
+					return
+				}
+				for _, e := range elems {
+					if _, isCall := e.(*ssa.Call); isCall {
+						continue
+					}
+					// a helper's parameters: map to the arguments of every family call
+					if prm, isP := e.(*ssa.Parameter); isP {
+						qp, isQP := dirOf.(*ssa.Parameter)
+						if !isQP {
+							continue
+						}
+						h := prm.Parent()
+						ri, qi := -1, -1
+						for i, x := range h.Params {
+							if x == prm {
+								ri = i
+							}
+							if x == qp {
+								qi = i
+							}
+						}
+						for _, m := range append(append([]*ssa.Function{}, s.fam...), h) {
+							for _, cs := range callsTo(m, h) {
+								if ri >= 0 && qi >= 0 && ri < len(cs.Common().Args) && qi < len(cs.Common().Args) {
+									check(m, cs.Pos(), cs.Common().Args[qi], cs.Common().Args[ri], "(via "+an.FnName(h)+")")
+								}
+							}
+						}
+						continue
+					}
+					check(fn, in.Pos(), dirOf, e, "")
+				}
+			}
+		})
+	}
+	// helpers that only resolve (no buffer) are not family members: scan the package functions the family calls
+	seenH := map[*ssa.Function]bool{}
+	for _, fn := range s.fam {
+		an.Instrs(fn, func(in ssa.Instruction) {
+			cl, ok := in.(*ssa.Call)
+			if !ok {
+				return
+			}
+			h := cl.Call.StaticCallee()
+			if h == nil || h.Blocks == nil || h.Pkg != fn.Pkg || s.inFam[h] || seenH[h] {
+				return
+			}
+			seenH[h] = true
+			an.Instrs(h, func(hin ssa.Instruction) {
+				jc, ok := hin.(*ssa.Call)
+				if !ok || jc.Call.StaticCallee() == nil || jc.Call.StaticCallee().Name() != "Join" || len(jc.Call.Args) != 1 {
+					return
+				}
+				elems := variadicElems(jc.Call.Args[0])
+				var qp *ssa.Parameter
+				for _, e := range elems {
+					if dc, ok := e.(*ssa.Call); ok && dc.Call.StaticCallee() != nil && dc.Call.StaticCallee().Name() == "Dir" && len(dc.Call.Args) == 1 {
+						qp, _ = dc.Call.Args[0].(*ssa.Parameter)
+					}
+				}
+				if qp == nil {
+					return
+				}
+				for _, e := range elems {
+					prm, isP := e.(*ssa.Parameter)
+					if !isP {
+						continue
+					}
+					ri, qi := -1, -1
+					for i, x := range h.Params {
+						if x == prm {
+							ri = i
+						}
+						if x == qp {
+							qi = i
+						}
+					}
+					for _, m := range s.fam {
+						for _, cs := range callsTo(m, h) {
+							if ri >= 0 && qi >= 0 && ri < len(cs.Common().Args) && qi < len(cs.Common().Args) {
+								check(m, cs.Pos(), cs.Common().Args[qi], cs.Common().Args[ri], "(via "+an.FnName(h)+")")
+							}
+						}
+					}
+				}
+			})
+		})
+	}
+	c.Floor("M7", "relative link targets joined with a directory", n, 1)
+}
+
+// M8: "the file is missing, report null" is concluded only after looking for the file where an
+// interrupted run would have left it.  moveOutFile renames the file into outs/ and then links it
+// back; mrp runs post-processing again after a restart (cleanupCompleted calls PostProcess
+// unconditionally).  A kill between the rename and the link leaves the file under outs/ and
+// nothing at its old path: if the second run takes "source does not exist" to mean "the stage did
+// not create it", the output is recorded as null although the file is there.
+// Rule: every write of the null literal that is dominated by os.IsNotExist(err) of a stat of the
+// source path is preceded, on every path, by a stat of the destination (a path built from
+// GetOutFilename()).
+func (s *c13) ruleM8() {
+	c := s.c
+	fromOut := func(v ssa.Value) bool {
+		seen := map[ssa.Value]bool{}
+		var rec func(v ssa.Value, d int) bool
+		rec = func(v ssa.Value, d int) bool {
+			if v == nil || seen[v] || d > 8 {
+				return false
+			}
+			seen[v] = true
+			switch x := v.(type) {
+			case *ssa.Call:
+				if f := x.Call.StaticCallee(); f != nil {
+					if f.Name() == "GetOutFilename" {
+						return true
+					}
+					for _, a := range x.Call.Args {
+						if rec(a, d+1) {
+							return true
+						}
+					}
+				}
+			case *ssa.Slice:
+				for _, e := range variadicElems(x) {
+					if rec(e, d+1) {
+						return true
+					}
+				}
+			case *ssa.Phi:
+				for _, e := range x.Edges {
+					if rec(e, d+1) {
+						return true
+					}
+				}
+			case *ssa.BinOp:
+				return rec(x.X, d+1) || rec(x.Y, d+1)
+			}
+			return false
+		}
+		return rec(v, 0)
+	}
+	isStat := func(in ssa.Instruction) (ssa.Value, bool) {
+		cl, ok := in.(*ssa.Call)
+		if !ok || cl.Call.StaticCallee() == nil || cl.Call.StaticCallee().Pkg == nil || cl.Call.StaticCallee().Pkg.Pkg.Path() != "os" {
+			return nil, false
+		}
+		if n := cl.Call.StaticCallee().Name(); (n == "Lstat" || n == "Stat") && len(cl.Call.Args) == 1 {
+			return cl.Call.Args[0], true
+		}
+		return nil, false
+	}
+	n := 0
+	for _, fn := range s.fam {
+		an.Instrs(fn, func(in ssa.Instruction) {
+			bw := s.classify(in)
+			if bw == nil || bw.kind != "direct" {
+				return
+			}
+			u, ok := an.Strip(bw.data).(*ssa.UnOp)
+			if !ok {
+				return
+			}
+			g, ok := u.X.(*ssa.Global)
+			if !ok || g.Name() != "nullBytes" {
+				return
+			}
+			notExist, _ := an.GuardedBy(in, func(r an.Rel) bool {
+				if r.Op != token.ILLEGAL || !r.Truth {
+					return false
+				}
+				cl, ok := r.X.(*ssa.Call)
+				return ok && cl.Call.StaticCallee() != nil && cl.Call.StaticCallee().Name() == "IsNotExist"
+			})
+			if !notExist {
+				return
+			}
+			n++
+			w := an.Query{Fn: fn, Target: func(x ssa.Instruction) bool { return x == in },
+				Barrier: func(x ssa.Instruction) bool {
+					arg, ok := isStat(x)
+					return ok && fromOut(arg)
+				}}.Find()
+			c.Check("M8", "missing-source-means-null-only-if-not-already-moved@"+an.FnName(fn), in.Pos(), w == nil,
+				"null is recorded for an output whose source path does not exist without looking for the file at its destination under outs/: after a kill between the rename into outs/ and the link back, the second post-processing run (mrp runs it again on restart) records null although the file is there; "+c.WitnessString(w))
+		})
+	}
+	c.Floor("M8", "null written for a missing source file", n, 1)
 }
